@@ -562,7 +562,7 @@ func ExecuteConc(t *testing.T, plan *Plan, opts Opts) *RunResult {
 	add := func(v Violation) {
 		if opts.Own == "" || v.Prop == opts.Own {
 			res.Violations = append(res.Violations, v)
-			res.Log.Lines = append(res.Log.Lines, "VIOLATION "+v.String())
+			res.Log.Lines = append(res.Log.Lines, "VIOLATION "+firstLines(v.String(), 1))
 		} else {
 			res.Stats.Foreign[v.Prop+"/"+v.Clause]++
 		}
